@@ -43,3 +43,38 @@ def run_streams(ctx, streams, extra=None):
             shutil.rmtree(pdir, ignore_errors=True)
             if bad:
                 return
+
+
+def run_resp_streams(ctx, streams, extra=None, corpus=True):
+    """RESP-level streams over loopback TCP. streams: list of dicts
+       {label, fams, n:(quick,thorough), count:(quick,thorough), conns, events}"""
+    import gen_resp, gen_resp_lhs, gen_resp_zs
+    quick = ctx.tier == "quick"
+    h = vlib.build_harness(ctx)
+    families = dict(gen_resp_lhs.FAMILIES)
+    families.update(gen_resp_zs.FAMILIES)
+    if corpus:
+        ops = vlib.corpus_ops(ctx.pid, "resp.ops")
+        seqs, cur = [], []
+        for l in ops:
+            if l == "---":
+                seqs.append(cur); cur = []
+            else:
+                cur.append(l)
+        if cur:
+            seqs.append(cur)
+        for i, seq in enumerate(seqs):
+            vlib.correspond_stream(ctx, h, seq, f"corpusr{i}", "corpus: witnesses of repaired defects and past failures", shrink=False)
+    vlib.replay_known_findings(ctx, h, None)
+    for label, ops in (extra or []):
+        vlib.correspond_stream(ctx, h, ops, "ex-" + label.split()[0], label)
+        if ctx.violations:
+            return
+    for si, st in enumerate(streams):
+        n = st["n"][0 if quick else 1]
+        count = st["count"][0 if quick else 1]
+        conns = tuple(f"c{i+1}" for i in range(st.get("conns", 1)))
+        for i in range(count):
+            ops = gen_resp.stream(ctx.rng, st["fams"], n, conns=conns, events=st.get("events"), realtime=True, extra_families=families)
+            if vlib.correspond_stream(ctx, h, ops, f"r{si}-{i}", st["label"]):
+                return
